@@ -148,7 +148,7 @@ func sortedBeforeStore(r *R, fnName, field string) {
 		return
 	}
 	o.AtI(sorts[0])
-	o.Check(unwrapIface(callOf(sorts[0]).Args[0]) == list, "the slice sorted (%s) is not the slice stored (%s)", c.Expr(callOf(sorts[0]).Args[0]), c.Expr(list))
+	o.Check(unwrapIface(callOf(sorts[0]).Args[0]) == list || c.Expr(callOf(sorts[0]).Args[0]) == c.Expr(list), "the slice sorted (%s) is not the slice stored (%s)", c.Expr(callOf(sorts[0]).Args[0]), c.Expr(list))
 	// on every path to the store where keepOriginalOrder (p2) is false, the sort happens: the only guard allowed on the sort is -p2
 	bad := ""
 	for _, g := range c.guardStrs(sorts[0].Block()) {
@@ -662,7 +662,7 @@ func c02r7(r *R) {
 				o2.Check(hasGuardContaining(gs, "+", `("" == phi(""|`+first), "\"00\" is stored under %v, want `no ALPN value`", gs)
 			} else if v == `"99"` {
 				sawVal = true
-			} else if v == `""` && hasGuardContaining(c.guardStrs(st.Block()), "+", `("" != phi(""|`+first) {
+			} else if v == `""` && (hasGuardContaining(c.guardStrs(st.Block()), "+", `("" != phi(""|`+first) || hasGuardContaining(gs, "+", `("" != phi(""|`+first)) {
 				// the initial empty value cannot reach a store that is guarded by `alpn != ""`
 			} else {
 				sawVal = true
